@@ -85,6 +85,10 @@ def gen_case(rng):
         if dur:
             X['periodicity_duration'] = dur
         X.pop('start', None); X.pop('end', None)
+        if cls in ('Contract', 'SimpleContract', 'MultiCommodityContract') and rng.random() < 0.3:
+            # a periodic asset that starts inside the horizon (periods and durations still count from the grid start, not from the asset's start)
+            s_, e_, _k = gen.gen_window(rng, g, kinds=['start_only', 'inside'])
+            X['start'], X['end'] = s_, e_
     assets.append(X)
     for j in range(int(rng.integers(0, 3))):
         k2 = 'q%d' % j; pk.append(k2)
@@ -239,6 +243,10 @@ def run_case(rng, tier, case):
                    n_equalities=neq, window=[X.get('start'), X.get('end')])
     else:
         classes = period_classes(sp, X, ck)
+        if X.get('start') or X.get('end'):
+            Wx = set(ck.window(X.get('start'), X.get('end')))          # (the asset repeats its dispatch over the steps in which it is active)
+            classes = {kq: [t for t in v if t in Wx] for kq, v in classes.items()}
+            classes = {kq: v for kq, v in classes.items() if v}
         worst = 0.; bad = None
         for k, G in classes.items():
             if len(G) > 1 and np.ptp(disp[G]) > worst:
